@@ -116,7 +116,10 @@ func (famFuzz) Gen(r *rand.Rand, n int, _ map[string]string) []any {
 					"| line_format \"{{.a\"", "| line_format \"{{ nosuchfunc .a }}\"", "| label_format x=\"{{ index .a 5 }}\"", "| line_format \"{{ .a | div 1 0 }}\"",
 					"| pattern \"<a><b>\"", "| pattern \"\"", "| pattern \"<a> <a>\"", "| json x=\"a[\"", "| json x=\"a..b\"", "| json x=\"[99999999999999999999]\"",
 					"| logfmt x=\"\\\"\"", "| regexp \"(?P<a>x)(?P<a>y)\"", "| regexp \"(?P<1a>x)\"", "|= ip(\"999.1.1.1\")", "| addr = ip(\"1.2.3.4-\")", "| addr = ip(\"::/999\")",
-					"| unwrap v", "| drop", "| keep ,", "| distinct", "| v > 1e999", "| v > 99999999999999999999h", "| line_format \"{{ alignLeft -1 .a }}{{ alignRight 99999 .a }}\"",
+					"| unwrap v", "| drop", "| keep ,", "| distinct",
+					// the regexp stage: optional and alternative named groups that do not take part in a match, empty matches, nested groups
+					"| regexp \"(?P<ok>OK)|(?P<fail>FAIL)\"", "| regexp \"(?P<a>x)?(?P<b>y)\"", "| regexp \"(?P<lvl>\\\\w+)( (?P<rest>.*))?\"", "| regexp \"(?P<e>)\"",
+					"| regexp \"^(?P<k>[^=]*)=(?P<v>.*)$\"", "| regexp \"(?P<o>(?P<i>a)|b)+\"", "| regexp \"(?P<n>\\\\d+)?$\"", "| regexp \"(?s)(?P<all>.*)\" | all != \"\"", "| v > 1e999", "| v > 99999999999999999999h", "| line_format \"{{ alignLeft -1 .a }}{{ alignRight 99999 .a }}\"",
 					"| line_format \"{{ unixToTime .v }}\"", "| line_format \"{{ .v | int | add 1 | repeat 3 }}\"", "| label_format x=\"{{ regexReplaceAll \\\"(\\\" .a \\\"\\\" }}\"",
 				})
 			}
